@@ -8,7 +8,7 @@ open TV TV.ListenerLife TV.LifeLink
 /-- per-thread part of the invariant -/
 def ThOk (a : Nat) (s : Sys) (th : Th) : Prop :=
   (th.pc = .parkedWait → s.sockClosed = false) ∧
-  (th.pc = .atWait ∨ th.pc = .parkedWait → s.table = [] ∧ s.accepting = false) ∧
+  (th.pc = .atWait ∨ th.pc = .parkedWait → s.table = [] ∧ s.accepting = false ∧ s.arrPending = false) ∧
   (th.role = .lcloser → (th.pc = .start ∨ th.pc = .atLock ∨ th.pc = .atWait ∨ th.pc = .parkedWait ∨ th.pc = .done .ok)) ∧
   (th.role = .lcloser → th.pc ≠ .start → s.accepting = false) ∧
   (∀ c, th.pc = .done (.conn c) → a ≤ c ∧ c < s.nextConn ∧ c ∈ s.table ∧ c ∉ s.acceptQ)
@@ -23,20 +23,23 @@ structure Inv (a : Nat) (s : Sys) : Prop where
   nge : a ≤ s.nextConn
   acc : s.accepting = false → lstarted s.ths = true
   tbl : ∀ c, c < a → c ∉ s.table → started s.ths c = true
+  /-- once the listener's reference is dropped no arrival is in flight and nothing is queued -/
+  rel : relL s.ths = true → s.arrPending = false ∧ s.acceptQ = []
   thr : ∀ th ∈ s.ths, ThOk a s th
 
 /-- what the threads that do not move need from the change of the shared fields -/
 def Frame (a : Nat) (bw : Bool) (s s' : Sys) : Prop :=
   (bw = false → s'.sockClosed = true → s.sockClosed = true) ∧
-  (s.table = [] → s.accepting = false → s'.table = []) ∧
+  (s.table = [] → s.accepting = false → s.arrPending = false → s'.table = []) ∧
   (s.accepting = false → s'.accepting = false) ∧
-  (∀ c, a ≤ c → c < s.nextConn → c ∈ s.table → c ∉ s.acceptQ → c < s'.nextConn ∧ c ∈ s'.table ∧ c ∉ s'.acceptQ)
+  (∀ c, a ≤ c → c < s.nextConn → c ∈ s.table → c ∉ s.acceptQ → c < s'.nextConn ∧ c ∈ s'.table ∧ c ∉ s'.acceptQ) ∧
+  (s.accepting = false → s.arrPending = false → s'.arrPending = false)
 
 theorem thOk_frame {a : Nat} {s s' : Sys} {bs bw : Bool} {x : Th} (h : ThOk a s x) (hf : Frame a bw s s') :
     ThOk a s' (wk bs bw x) := by
   unfold ThOk at h ⊢
   obtain ⟨h1, h2, h3, h4, h5⟩ := h
-  obtain ⟨f1, f2, f3, f4⟩ := hf
+  obtain ⟨f1, f2, f3, f4, f5⟩ := hf
   cases x with | mk r p =>
   simp only [wk_pc, wk_role] at *
   refine ⟨?_, ?_, ?_, ?_, ?_⟩
@@ -52,7 +55,7 @@ theorem thOk_frame {a : Nat} {s s' : Sys} {bs bw : Bool} {x : Th} (h : ThOk a s 
       · exact Or.inl hp
       · exact Or.inr hp.1
     have := h2 this
-    exact ⟨f2 this.1 this.2, f3 this.2⟩
+    exact ⟨f2 this.1 this.2.1 this.2.2, f3 this.2.1, f5 this.2.1 this.2.2⟩
   · intro hr
     have := h3 hr
     rcases this with rfl | rfl | rfl | rfl | rfl <;> cases bs <;> cases bw <;> simp [wkPc]
@@ -121,8 +124,9 @@ theorem inv_mk {a : Nat} {s s' : Sys} {l1 l2 : List Th} {th th' : Th} {bs bw : B
     (qnd : s'.acceptQ.Nodup)
     (nge : a ≤ s'.nextConn)
     (acc : s'.accepting = false → lstarted s'.ths = true)
-    (tbl : ∀ c, c < a → c ∉ s'.table → started s'.ths c = true) : Inv a s' := by
-  refine ⟨?_, count, sock, rwg, qok, qnd, nge, acc, tbl, ?_⟩
+    (tbl : ∀ c, c < a → c ∉ s'.table → started s'.ths c = true)
+    (rel : relL s'.ths = true → s'.arrPending = false ∧ s'.acceptQ = []) : Inv a s' := by
+  refine ⟨?_, count, sock, rwg, qok, qnd, nge, acc, tbl, rel, ?_⟩
   · have := h.wf
     rw [hs] at this
     rw [hths, List.map_append, List.map_cons, roles_map_wk, roles_map_wk, hrole]
@@ -149,11 +153,12 @@ theorem inv_mk0 {a : Nat} {s s' : Sys} {l1 l2 : List Th} {th th' : Th}
     (qnd : s'.acceptQ.Nodup)
     (nge : a ≤ s'.nextConn)
     (acc : s'.accepting = false → lstarted s'.ths = true)
-    (tbl : ∀ c, c < a → c ∉ s'.table → started s'.ths c = true) : Inv a s' :=
-  inv_mk (bs := false) (bw := false) h hs (by rw [map_wk_ff, map_wk_ff]; exact hths) hrole hfr hth' count sock rwg qok qnd nge acc tbl
+    (tbl : ∀ c, c < a → c ∉ s'.table → started s'.ths c = true)
+    (rel : relL s'.ths = true → s'.arrPending = false ∧ s'.acceptQ = []) : Inv a s' :=
+  inv_mk (bs := false) (bw := false) h hs (by rw [map_wk_ff, map_wk_ff]; exact hths) hrole hfr hth' count sock rwg qok qnd nge acc tbl rel
 
 theorem frame_refl (a : Nat) (bw : Bool) (s : Sys) : Frame a bw s s :=
-  ⟨fun _ h => h, fun h _ => h, id, fun _ _ h2 h3 h4 => ⟨h2, h3, h4⟩⟩
+  ⟨fun _ h => h, fun h _ _ => h, id, fun _ _ h2 h3 h4 => ⟨h2, h3, h4⟩, fun _ h => h⟩
 
 /-- a change of the shared fields only -/
 theorem thr_frame {a : Nat} {s s' : Sys} (h : ∀ th ∈ s.ths, ThOk a s th) (hf : Frame a false s s') (hths : s'.ths = s.ths) :
@@ -162,5 +167,34 @@ theorem thr_frame {a : Nat} {s s' : Sys} (h : ∀ th ∈ s.ths, ThOk a s th) (hf
   rw [hths] at hm
   have := thOk_frame (bs := false) (bw := false) (h th hm) hf
   rwa [wk_ff] at this
+
+/-- while an arrival is in flight the listener still holds its reference, so the socket is open -/
+theorem relL_of_pend {a : Nat} {s : Sys} (h : Inv a s) (hp : s.arrPending = true) : relL s.ths = false := by
+  cases hr : relL s.ths with
+  | false => rfl
+  | true =>
+    have := (h.rel hr).1
+    rw [hp] at this; cases this
+
+theorem wg_pos_of_pend {a : Nat} {s : Sys} (h : Inv a s) (hp : s.arrPending = true) : 1 ≤ s.wg := by
+  have := h.count
+  rw [relL_of_pend h hp] at this
+  simp at this
+  omega
+
+theorem sock_of_pend {a : Nat} {s : Sys} (h : Inv a s) (hp : s.arrPending = true) : s.sockClosed = false := by
+  cases hsc : s.sockClosed with
+  | false => rfl
+  | true =>
+    have := h.sock.1 hsc
+    have := wg_pos_of_pend h hp
+    omega
+
+/-- the listener closer past its first step means `accepting` is cleared -/
+theorem acc_of_relL {a : Nat} {s : Sys} (h : Inv a s) (hr : relL s.ths = true) : s.accepting = false := by
+  simp only [relL, List.any_eq_true, decide_eq_true_eq] at hr
+  obtain ⟨th, hm, hrole, hpc⟩ := hr
+  apply (h.thr th hm).2.2.2.1 hrole
+  rcases hpc with e | e | e <;> simp [e]
 
 end TV.Proofs.ListenerLife
